@@ -202,6 +202,19 @@ pub fn build(family: &str, tier: Tier) -> Vec<Cfg> {
                     out.push(c);
                 }
             }
+            // a tiny output buffer on one connection only: operations are interrupted half-written
+            for caps in [vec![4096usize, 5, 4096], vec![5, 4096, 4096]] {
+                let mut c = Cfg::base("packet-ids", &format!("caps{:?}", caps));
+                c.caps = caps; c.start_packet_id = Some(65535);
+                c.submits = vec![spec("pub1", publish("t", 1)), spec("sub", subscribe(&["f"])), spec("pub2", publish("t", 2))];
+                c.max_submits = if thorough { 2 } else { 1 };
+                c.max_conns = 3;
+                c.budget = if thorough { 3 } else { 2 };
+                c.max_depth = 90;
+                c.allow.close = true;
+                c.session_answers = vec![true, false];
+                out.push(c);
+            }
         }
         "handshake" => {
             for rejoin in [RejoinSessionPolicy::PostSuccess, RejoinSessionPolicy::Always, RejoinSessionPolicy::Never] {
@@ -250,8 +263,25 @@ pub fn build(family: &str, tier: Tier) -> Vec<Cfg> {
                         c.max_depth = 28;
                         c.allow.close = true; c.allow.reorder = true;
                         c.session_answers = vec![true, false];
+                        c.allow.server_disconnect = drain && !v311;
                         out.push(c);
                     }
+                }
+            }
+            // the server announces a different Receive Maximum on the resumed connection
+            for rms in [vec![None, Some(1u16)], vec![Some(3), Some(1)], vec![Some(2), Some(1)], vec![Some(1), Some(2)]] {
+                for drain in [false, true] {
+                    if !thorough && drain && rms != vec![None, Some(1)] { continue; }
+                    let mut c = Cfg::base("flow-control", &format!("rm-by-conn{:?}-drain{}", rms, drain));
+                    c.receive_maximum_by_conn = rms.clone(); c.one_at_a_time = drain;
+                    c.submits = vec![spec("pub1", publish("t", 1)), spec("pub2", publish("t", 2))];
+                    c.max_submits = 3;
+                    c.max_conns = 2;
+                    c.budget = 2;
+                    c.max_depth = 28;
+                    c.allow.close = true; c.allow.reorder = true;
+                    c.session_answers = vec![true, false];
+                    out.push(c);
                 }
             }
         }
@@ -271,6 +301,19 @@ pub fn build(family: &str, tier: Tier) -> Vec<Cfg> {
                     c.session_answers = vec![true, false];
                     out.push(c);
                 }
+            }
+            // flow-control stall of the retransmission queue: Receive Maximum shrinks on the resumed connection
+            for rms in [vec![None, Some(1u16)], vec![Some(3), Some(1)]] {
+                let mut c = Cfg::base("ordering", &format!("rm-by-conn{:?}", rms));
+                c.receive_maximum_by_conn = rms;
+                c.submits = vec![spec("pub1", publish("t", 1)), spec("sub", subscribe(&["f"])), spec("pub0", publish("t", 0))];
+                c.max_submits = if thorough { 4 } else { 3 };
+                c.max_conns = 2;
+                c.budget = if thorough { 2 } else { 1 };
+                c.max_depth = 30;
+                c.allow.close = true;
+                c.session_answers = vec![true, false];
+                out.push(c);
             }
         }
         "keepalive" => {
